@@ -1488,9 +1488,10 @@ func (p *Printer) ifClause(ic *IfClause, elif bool) {
 		p.comments(ic.Last...)
 	} else {
 		var left []Comment
-		for _, c := range ic.Last {
+		for i, c := range ic.Last {
 			if c.Pos().After(el.Position) {
-				left = append(left, c)
+				// All the remaining comments come after "else".
+				left = ic.Last[i:]
 				break
 			}
 			p.comments(c)
